@@ -93,6 +93,7 @@ class Plane:
         self.fault = fault           # None | ("io", k, kind) | ("io2", k1, kind1, k2, kind2)
         self.faults = []
         self.fired_n = 0
+        self.active = True
         if fault and fault[0] == "io":
             self.faults = [("io", fault[1], fault[2])]
         elif fault and fault[0] == "io2":
@@ -103,6 +104,10 @@ class Plane:
 
     def point(self, op, label):
         """op in open_r open_w read write close mktemp mkdtemp cctor"""
+        if not self.active:
+            # a wrapper that outlived its execution (closed by the garbage
+            # collector some time later): not part of any numbered history
+            return None
         k = self.step
         self.step += 1
         self.trace.append((op, label, self.block))
@@ -269,6 +274,12 @@ NAMES = ["data", "a.b.c", "archive.tar", "x.nc", "weird name", "UPPER.TXT",
 PLAIN_SUFFIX = ["", ".dat", ".txt", ".GZ", ".gzip", ".z"]
 
 
+def has_suffix(name, fmt):
+    """A name carries the compression suffix iff its extension (in the sense of
+    os.path.splitext: a leading dot does not start an extension) is .<fmt>."""
+    return os.path.splitext(name)[1] == "." + fmt
+
+
 def gen_content(tape):
     kind = tape.pick(["text", "empty", "one", "chunk-1", "chunk", "chunk+1",
                       "big", "binary", "compressed"], "content")
@@ -326,7 +337,7 @@ def gen_workload(tape):
             blk["tmpdir"] = tape.flag("tmpdir", 1, 3)
             blk["preexisting"] = tape.flag("preexisting", 1, 3)
             blk["subdir"] = tape.flag("subdir", 1, 4)
-            if blk["fmt"] and (blk["fmt_arg"] is None or blk["name"].endswith("." + blk["fmt"])):
+            if blk["fmt"] and has_suffix(blk["name"], blk["fmt"]):
                 archives.append(b)
         else:
             if kind == "decompress":
@@ -411,6 +422,13 @@ class Exec:
             table[key] = factory(real_classes.get(fmt, table[key]), fmt)
         saved_tmp = _real_tempfile.tempdir
         _real_tempfile.tempdir = tmp_default
+        # typhon leaks file objects on its error paths; they are closed when the
+        # reference count drops (deterministic) or by the cyclic collector (not
+        # deterministic). Keep the collector out of a numbered execution and
+        # retire the fault plane afterwards.
+        import gc
+        gc_was = gc.isenabled()
+        gc.disable()
         try:
             with patched((umod, "open", s_open), (umod, "shutil", s_shutil),
                          (umod, "tempfile", s_tempfile),
@@ -421,6 +439,9 @@ class Exec:
                     # still work (nothing left behind that breaks them)
                     self.block(bi, blk, data, tmp_default, tmp_explicit)
         finally:
+            self.plane.active = False
+            if gc_was:
+                gc.enable()
             _real_tempfile.tempdir = saved_tmp
 
     # -- one with-block -----------------------------------------------------
@@ -450,7 +471,7 @@ class Exec:
                     del self.archive_blocks[other]
             fmt = blk["fmt"]
             member = blk["name"][:-(len(fmt) + 1)] if fmt and \
-                blk["name"].endswith("." + fmt) else blk["name"]
+                has_suffix(blk["name"], fmt) else blk["name"]
             if len(content) > CHUNK:
                 self.probe("content_larger_than_chunk")
             self.body_points.append((bi, 3))
@@ -634,7 +655,7 @@ class Exec:
                                 f"block {bi}: archive holds {len(back)} bytes, "
                                 f"expected {len(content)}"))
             return
-        if blk["name"].endswith("." + fmt):
+        if has_suffix(blk["name"], fmt):
             # a later block may overwrite the archive of an earlier one
             self.archive_blocks[bi] = (path, fmt, member, content)
 
